@@ -30,8 +30,8 @@ func (p *Program) Source() string {
 	body := strings.Join(p.Decls, "\n\n") + "\n\nfunc main() {\n" + indent(strings.Join(p.Main, "\n"), 1) + "\n}\n"
 	b.WriteString("package main\n\n")
 	var imps []string
-	for _, pkg := range []string{"errors", "fmt", "os", "sort", "strconv", "strings"} {
-		if strings.Contains(body, pkg+".") {
+	for _, pkg := range []string{"errors", "fmt", "os", "path/filepath", "runtime", "sort", "strconv", "strings"} {
+		if strings.Contains(body, pkg[strings.LastIndex(pkg, "/")+1:]+".") {
 			imps = append(imps, pkg)
 		}
 	}
@@ -214,7 +214,25 @@ type gen struct {
 	inFunc  *funcDef
 	loopLbl []string
 	budget  int // remaining statement budget
+	opt     Options
+	nmark   int
 }
+
+// Options of the generator.
+type Options struct {
+	Marks  bool // wrap int literals in mk(id, v) calls that record runtime.Caller (C09)
+	Layout bool // insert blank lines and comments between statements and declarations
+}
+
+const markHelper = `func mk(id int, v int) int {
+	pc, file, line, _ := runtime.Caller(1)
+	entry := 0
+	if f := runtime.FuncForPC(pc); f != nil {
+		_, entry = f.FileLine(f.Entry())
+	}
+	fmt.Println("MK", id, filepath.Base(file), line, entry)
+	return v
+}`
 
 func (g *gen) f(name string) { g.feat[name]++ }
 
@@ -286,6 +304,14 @@ func (g *gen) strLit() string {
 }
 
 func (g *gen) intLit() string {
+	if g.opt.Marks && g.chance(45, "mark") {
+		g.nmark++
+		return fmt.Sprintf("mk(%d, %s)", g.nmark, g.intLit0())
+	}
+	return g.intLit0()
+}
+
+func (g *gen) intLit0() string {
 	switch g.intn(8, "iform") {
 	case 0:
 		return "0"
@@ -1003,7 +1029,10 @@ func (g *gen) stmt(sc *scope, d int) string {
 				fmt.Fprintf(&b, "\tdefer fmt.Println(%q, %s)\n", g.tag(), g.expr(sc, g.printable(), 1))
 			}
 		}
+		savedLbl := g.loopLbl // labels of enclosing loops are not visible inside a function literal
+		g.loopLbl = nil
 		b.WriteString(indent(g.block(sc, 1+g.intn(2, "dn"), d-1), 1))
+		g.loopLbl = savedLbl
 		b.WriteString("\n}()")
 		return b.String()
 	case 24: // recover from a deliberate panic
@@ -1524,6 +1553,10 @@ func (g *gen) genFuncs() []string {
 }
 
 func (g *gen) genGlobals() []string {
+	// package-level initialisers are not statements: no marks there (C09 is about statements)
+	marks := g.opt.Marks
+	g.opt.Marks = false
+	defer func() { g.opt.Marks = marks }()
 	var decls []string
 	n := 1 + g.intn(4, "nglobal")
 	sc := &scope{}
@@ -1559,11 +1592,32 @@ func (g *gen) genGlobals() []string {
 }
 
 // Gen is the rapid generator of programs.
-func Gen() *rapid.Generator[*Program] {
+func Gen() *rapid.Generator[*Program] { return GenOpt(Options{}) }
+
+// GenOpt is Gen with options.
+func GenOpt(opt Options) *rapid.Generator[*Program] {
 	return rapid.Custom(func(t *rapid.T) *Program {
-		g := &gen{t: t, feat: map[string]int{}}
+		g := &gen{t: t, feat: map[string]int{}, opt: opt}
 		p := &Program{Feat: g.feat}
 		p.Decls = append(p.Decls, helpers)
+		if opt.Marks {
+			p.Decls = append(p.Decls, markHelper)
+		}
+		if opt.Layout {
+			defer func() {
+				// blank lines and comments between top-level units and between main statements
+				for i := range p.Decls {
+					if g.chance(30, "layout") {
+						p.Decls[i] = []string{"// c\n", "\n", "/* block\n   comment */\n", "// doc line 1\n// doc line 2\n"}[g.intn(4, "lk")] + p.Decls[i]
+					}
+				}
+				for i := range p.Main {
+					if g.chance(30, "layout") {
+						p.Main[i] = []string{"// c\n", "\n", "\n\n// c\n", "/* b */\n"}[g.intn(4, "lk")] + p.Main[i]
+					}
+				}
+			}()
+		}
 		p.Decls = append(p.Decls, g.genStructs()...)
 		p.Decls = append(p.Decls, g.genGlobals()...)
 		p.Decls = append(p.Decls, g.genMethods()...)
